@@ -128,6 +128,8 @@ inductive Val where
   | str (s : List Char)
   /-- a real number on the grid of the field's precision: value × 10^prec -/
   | fix (k : Int)
+  /-- `float('nan')` (the coordinates `write_pdb_string(nan_missing_pos=True)` gives an atom without position) -/
+  | nan
   deriving DecidableEq, Repr
 
 abbrev Env := FName → Val
@@ -147,6 +149,7 @@ def fieldBody (sp : Spec) (v : Val) : List Char :=
   | .s, .str s => s
   | .f, .fix k => fixRepr sp.prec k
   | .f, .int i => fixRepr sp.prec (i * (10 ^ sp.prec : Nat))
+  | .f, .nan => ['n', 'a', 'n']
   | _, _ => []
 
 /-- python's own padding to the minimum width -/
@@ -212,22 +215,37 @@ inductive RVal where
   | int (i : Int)
   | str (s : List Char)
   | dec (m : Int) (d : Nat)
+  /-- `float('nan')` -/
+  | nan
   deriving DecidableEq, Repr
 
 inductive Err where
-  | valueerror | keyerror | indexerror | nameerror | unmodelled
+  | valueerror | keyerror | indexerror | nameerror | unmodelled | runtimeerror
   deriving DecidableEq, Repr
 
 def Err.toString : Err → String
   | .valueerror => "valueerror" | .keyerror => "keyerror" | .indexerror => "indexerror"
-  | .nameerror => "nameerror" | .unmodelled => "unmodelled"
+  | .nameerror => "nameerror" | .unmodelled => "unmodelled" | .runtimeerror => "runtimeerror"
+
+def toLower (c : Char) : Char := if 65 ≤ c.toNat ∧ c.toNat ≤ 90 then Char.ofNat (c.toNat + 32) else c
+
+/-- the spellings of not-a-number `float()` accepts: optional sign, `nan` in any case -/
+def isNanText (v : List Char) : Bool :=
+  let w := match v with
+    | '-' :: r => r
+    | '+' :: r => r
+    | r => r
+  w.map toLower = ['n', 'a', 'n']
 
 /-- `type_(value)` -/
 def convert (ty : RTy) (v : List Char) : Except Err RVal :=
   match ty with
   | .str => .ok (.str v)
   | .int => match parseInt v with | some i => .ok (.int i) | none => .error .valueerror
-  | .float => match parseDec v with | some (m, d) => .ok (.dec m d) | none => .error .valueerror
+  | .float =>
+    match parseDec v with
+    | some (m, d) => .ok (.dec m d)
+    | none => if isNanText v then .ok .nan else .error .valueerror
 
 def defaultOf : RTy → RVal
   | .str => .str []
@@ -260,6 +278,8 @@ def Props.int (p : Props) (n : FName) : Int :=
   match p.get n with | some (.int i) => i | _ => 0
 def Props.dec (p : Props) (n : FName) : Int × Nat :=
   match p.get n with | some (.dec m d) => (m, d) | _ => (0, 0)
+def Props.isNan (p : Props) (n : FName) : Bool :=
+  match p.get n with | some .nan => true | _ => false
 
 def isAsciiLetter (c : Char) : Bool := (65 ≤ c.toNat && c.toNat ≤ 90) || (97 ≤ c.toNat && c.toNat ≤ 122)
 
@@ -481,6 +501,8 @@ inductive AtomResult where
 /-- `PDBParser._atom` after the column slicing -/
 def pdbAtomOfProps (exclude : List (List Char)) (ignh : Bool) (p : Props) : Except Err AtomResult := do
   if p.str .charge ≠ [] then throw Err.unmodelled
+  -- not-a-number coordinates and charges are handled by the full reader (`C16_Full.lean`)
+  if p.isNan .x ∨ p.isNan .y ∨ p.isNan .z ∨ p.isNan .occupancy ∨ p.isNan .temp_factor then throw Err.unmodelled
   let name := p.str .atomname
   let element ← if p.str .element = [] then (do let c ← firstAlpha name; pure [c]) else pure (p.str .element)
   let alt := p.str .altloc
@@ -496,8 +518,6 @@ def parseAtomLine (L : PdbLayout) (exclude : List (List Char)) (ignh : Bool) (li
     Except Err AtomResult := do
   let p ← readFields readFieldPdb line (mkSlices 0 L.readerFields)
   pdbAtomOfProps exclude ignh p
-
-def toLower (c : Char) : Char := if 65 ≤ c.toNat ∧ c.toNat ≤ 90 then Char.ofNat (c.toNat + 32) else c
 
 /-- `split_comments(line, '#')[0]`: text before the first '#', stripped -/
 def decomment (line : List Char) : List Char := strip (line.takeWhile (· ≠ '#'))
@@ -627,6 +647,8 @@ structure GroLayout where
   velNames : List FName
   velTypes : List RTy
   dotFrom : Nat
+  /-- `has_vel = first_line[countFrom:].count('.') == 6` (0: the whole line, as before the repair of F-C16-4) -/
+  countFrom : Nat
 
 def groLine (G : GroLayout) (serial : Nat) (a : Atom) : List Char := render G.atomFmt (atomEnv serial a)
 
@@ -665,10 +687,11 @@ structure GroFormat where
   slices : List RSlice
   hasVel : Bool
 
-/-- the format detection on the first atom line.  `find` returning -1 is carried as python does
+/-- the format detection on the first atom line.  Velocities are assumed iff the part of the line
+from column `countFrom` on (after the four identifier fields) holds exactly six points.  `find` returning -1 is carried as python does
 (`-1 + 1 = 0`, differences of −1/positions); widths that come out ≤ 0 yield no slice. -/
 def groDetect (G : GroLayout) (first : List Char) : GroFormat :=
-  let hasVel := (first.filter (· = '.')).length = 6
+  let hasVel := ((first.drop G.countFrom).filter (· = '.')).length = 6
   let fd : Int := match findFrom first '.' G.dotFrom with | some i => i | none => -1
   let sd : Int := match findFrom first '.' (fd + 1).toNat with | some i => i | none => -1
   let prec : Int := sd - fd
